@@ -5,7 +5,7 @@ N=$1; P=$2; T=${3:-quick}
 if [ -n "$(git -C /repo status --porcelain)" ]; then echo "REFUSING: /repo has uncommitted changes (try_seed undoes with git checkout)"; exit 3; fi
 cp /verif/evidence/$P.json /tmp/evidence_$P.$$.json 2>/dev/null
 cd /repo && git apply $(ls /verif/seeded/$N/patch_rebased*.diff 2>/dev/null || echo /verif/seeded/$N/patch.diff) || { echo "PATCH FAILED"; exit 3; }
-cd /verif && ./check $P --tier $T 2>&1 | grep -E "^VIOLATION|^HARNESS|tier=" | cut -c1-300 | head -8
+cd /verif && timeout 1500 ./check $P --tier $T 2>&1 | grep -E "^VIOLATION|^HARNESS|tier=" | cut -c1-300 | head -8
 echo "exit=${PIPESTATUS[0]}"
 git -C /repo checkout -- . ; git -C /repo status --short | head -3
 [ -f /tmp/evidence_$P.$$.json ] && mv /tmp/evidence_$P.$$.json /verif/evidence/$P.json
